@@ -136,7 +136,7 @@ def h_chunk(ctx, number, twin, max_chunks, extra=2):
     loop = FakeLoop(ctx, stream, eof_at, max_chunks)
     c = mk_connection(4096)
     if twin == 'async':
-        cm.asyncio = type('A', (), {'get_event_loop': staticmethod(lambda: loop)})
+        cm.asyncio = type('A', (), {'get_event_loop': staticmethod(lambda: loop), 'CancelledError': type('CancelledError', (BaseException,), {})})
         try:
             got = drive(c._reader_async(number))
             lost = False
@@ -345,6 +345,95 @@ def h_proto(ctx, nmsg):
     return res
 
 
+# ----------------------------------------------------------------------------- pause units (timing of the segments)
+
+
+def h_pause(ctx, npause, hold=9):
+    """The real Peer._run over the REAL Connection.reader_async/_reader_async (kits/peer.py ByteConn: only the socket is
+    replaced) and a faithful asyncio.wait_for (cancels the pending read on timeout, as the event loop does).  The remote
+    speaker sends OPEN, KEEPALIVE, an UPDATE announcing 10.0.0.0/24, a KEEPALIVE, an UPDATE withdrawing it, then closes —
+    one byte stream, delivered with `npause` pauses of 0.35 s (longer than the 0.1 s read timeout of Peer._main, far shorter
+    than the hold time) at solver-chosen byte offsets: inside a header, between header and body, inside a body, between
+    messages.  Framing must not depend on WHEN the segments arrive: no NOTIFICATION is sent, every message is delivered."""
+    from kits import session as S
+    from kits import peer as P
+    from checks import c05 as C5
+    conf = S.mk_conf(local_as=C5.LOCAL_AS, peer_as=C5.PEER_AS, hold=hold, families=('ipv4 unicast',), adj_rib_in=True)
+    neighbor = S.neighbor_from(conf)
+    neighbor.api = dict(neighbor.api)
+    neighbor.reset_rib()
+    neighbor.rib.incoming.clear()
+    withdraw = bytes.fromhex('0004' + '180a0000' + '0000')
+    msgs = [P.msg(1, C5.open_body(hold=hold)), P.KEEPALIVE, P.msg(2, C5.UPDATE_OK), P.KEEPALIVE, P.msg(2, withdraw), P.KEEPALIVE]
+    stream = b''.join(msgs)
+    start_established = len(msgs[0]) + len(msgs[1])
+    # pauses only once the session is ESTABLISHED (the OPEN wait has its own, much longer, timer: C12)
+    span = len(stream) - start_established
+    cuts = []
+    lo = 0
+    for i in range(npause):
+        c = ctx.choice('pause%d.at' % i, span - lo) + lo      # offset inside the established part, non-decreasing
+        cuts.append(start_established + c)
+        lo = c
+    items = []
+    prev = 0
+    for c in cuts:
+        if c > prev:
+            items.append(('data', stream[prev:c]))
+        items.append(('pause', 0.35))
+        prev = c
+    items.append(('data', stream[prev:]))
+    items.append(('pause', 0.35))
+    items.append(('eof',))
+    # classify where the pauses fall (vacuity guard: every kind of position must be explored)
+    bounds = []
+    off = 0
+    for m in msgs:
+        bounds.append((off, off + 19, off + len(m)))
+        off += len(m)
+    for c in cuts:
+        for (a, h, e) in bounds:
+            if c == a:
+                ctx.cover('pause-between-messages')
+            elif a < c < h:
+                ctx.cover('pause-inside-header')
+            elif c == h and e > h:
+                ctx.cover('pause-between-header-and-body')
+            elif h < c < e:
+                ctx.cover('pause-inside-body')
+    feeder = P.ByteFeeder(items)
+    peer = P.new_peer(neighbor, feeder)
+    seen = []
+    orig = neighbor.rib.incoming.update_cache
+    orig_w = neighbor.rib.incoming.update_cache_withdraw
+
+    def upd(route):
+        seen.append(('announce', str(route.nlri)))
+        return orig(route)
+
+    def wd(nlri):
+        seen.append(('withdraw', str(nlri)))
+        return orig_w(nlri)
+    neighbor.rib.incoming.update_cache = upd
+    neighbor.rib.incoming.update_cache_withdraw = wd
+    try:
+        result = P.drive(peer._run(), max_steps=4000)
+    finally:
+        neighbor.rib.incoming.update_cache = orig
+        neighbor.rib.incoming.update_cache_withdraw = orig_w
+    w = P.WORLD
+    info = {'pauses-at': cuts, 'message-boundaries': [b[2] for b in bounds], 'notifications': P.notifications(), 'received': seen,
+            'fsm': ['%s>%s' % t for t in w.fsm], 'cancelled-reads': w.cancelled_reads, 'result': result[0]}
+    if w.cancelled_reads:
+        ctx.cover('read-cancelled-by-timeout')
+    ctx.check('session-established', ('OPENCONFIRM', 'ESTABLISHED') in w.fsm, sig='C06:pause:session-not-established', info=info)
+    ctx.check('no-notification', not P.notifications(), sig='C06:pause:stream-desynchronised-by-a-pause', info=info)
+    ctx.check('every-message-delivered', seen == [('announce', '10.0.0.0/24'), ('withdraw', '10.0.0.0/24')],
+              sig='C06:pause:message-lost-or-invented', info=info)
+    ctx.check('all-bytes-read', feeder.delivered == len(stream), sig='C06:pause:bytes-left-unread', info=info)
+    return [cuts, len(P.notifications()), seen]
+
+
 # ----------------------------------------------------------------------------- units
 
 
@@ -363,4 +452,8 @@ def units(tier):
     for n in ((1, 2, 3) if thorough else (1, 2)):
         us.append(Unit('proto/m%d' % n, lambda ctx, n=n: h_proto(ctx, n),
                        must_cover=('err-1-1', 'err-1-2', 'err-1-3', 'keepalive') + (('second-message',) if n > 1 else ()), weight=30 * n))
+    for n in ((1, 2) if thorough else (1,)):
+        us.append(Unit('pause/p%d' % n, lambda ctx, n=n: h_pause(ctx, n),
+                       must_cover=('pause-between-messages', 'pause-inside-header', 'pause-between-header-and-body', 'pause-inside-body',
+                                   'read-cancelled-by-timeout'), weight=400 * n, max_seconds=1200))
     return us
